@@ -30,7 +30,7 @@ CHECKS = {
     "C02": {
         "level": "model_checking", "variants": ["main", "sched"], "shards": 16, "deadline_quick": 110, "deadline_thorough": 1800,
         "engine": "E-SEQ (time cache) + E-WORLD + E-SCHED",
-        "technique": "explicit-state model checking of the implementation: BFS by replay of the real time cache (real sweeper, virtual time) vs. an interval reference, and around one real node fed racing copies with counting, gated validators",
+        "technique": "explicit-state model checking of the implementation: BFS by replay of the real time cache (real sweeper, virtual time) vs. an interval reference, around one real node fed racing copies with counting, gated validators (node-wide and per-topic ID functions), and of one MessageBatch reused across PublishBatch calls",
         "rule": WORLD_RULE,
         "level_text": "cache alone: every sequence of Add/Has/advance (delays on both sides of the TTL and of TTL+sweep) for both strategies; node: every history over copies of one message from three peers, a local publish with the same ID "
                       "(content-hash ID function), inline / gated asynchronous validators with 1-2 workers and time advances across TTL and sweep, both strategies; deliveries per subscription and validator invocations per ID are counted "
@@ -42,7 +42,7 @@ CHECKS = {
     "C03": {
         "level": "exploration", "shards": 16, "deadline_quick": 110, "deadline_thorough": 1800,
         "engine": "E-SEQ inputs through E-WORLD",
-        "technique": "bounded-exhaustive input enumeration: every <=k-field tampering of honestly signed messages (4 key types) x 4 signature policies x author / anonymous mode, each fed to a real node through the wire; independent re-implementation of the verification rule as oracle",
+        "technique": "bounded-exhaustive input enumeration: every <=k-field tampering of honestly signed messages (4 key types) x 4 signature policies x author / anonymous mode, each fed to a real node through the wire, by a third party and by the peer it names as author; own publications under every policy with node, custom and per-publication keys; independent re-implementation of the verification rule as oracle",
         "rule": "cases = (policy, anonymous mode, base message: 4 key types x signed/unsigned) x (all tamperings touching <= k of the fields data, topic, from, seqno, key, signature, unknown bytes with ops drop / empty / flip / swap-from-another-signed-message / re-sign-with-foreign-key); "
                 "non-trivial = distinct case that reached the signature / policy decision (carries a signature, or is judged under a non-strict policy, or was accepted)",
         "level_text": "all <=3-field (thorough: <=4-field) tamperings of eight base messages under the four policies crossed with author / anonymous mode are sent by a fake peer to a real node with a second subscriber; "
@@ -76,7 +76,7 @@ CHECKS = {
         "design_ref": "DESIGN.md §5 C05",
     },
     "C06": {
-        "level": "model_checking", "shards": 5, "deadline_quick": 150, "deadline_thorough": 1500,
+        "level": "model_checking", "shards": 9, "deadline_quick": 150, "deadline_thorough": 1500,
         "engine": "E-WORLD",
         "technique": "explicit-state model checking of the implementation: BFS by replay around one real node (three routers) with scripted peers of five protocol versions; recipient-set oracle on the wire log",
         "rule": WORLD_RULE,
@@ -100,7 +100,7 @@ CHECKS = {
         "design_ref": "DESIGN.md §5 C07",
     },
     "C08": {
-        "level": "model_checking", "shards": 6, "deadline_quick": 100, "deadline_thorough": 1500,
+        "level": "model_checking", "shards": 8, "deadline_quick": 100, "deadline_thorough": 1500,
         "engine": "E-WORLD",
         "technique": "explicit-state model checking of the implementation: BFS by replay around one real gossipsub node with a per-(peer,topic) backoff monitor automaton fed by the wire log in virtual time",
         "rule": WORLD_RULE,
@@ -112,7 +112,7 @@ CHECKS = {
         "design_ref": "DESIGN.md §5 C08",
     },
     "C09": {
-        "level": "model_checking", "shards": 8, "deadline_quick": 100, "deadline_thorough": 1500,
+        "level": "model_checking", "shards": 10, "deadline_quick": 100, "deadline_thorough": 1500,
         "engine": "E-WORLD",
         "technique": "explicit-state model checking of the implementation: BFS by replay around one real gossipsub node with peer scoring; every threshold is approached from both sides and at equality through the application-specific score",
         "rule": WORLD_RULE,
@@ -162,7 +162,7 @@ CHECKS = {
         "design_ref": "DESIGN.md §5 C12",
     },
     "C13": {
-        "level": "model_checking", "shards": 7, "deadline_quick": 150, "deadline_thorough": 1800,
+        "level": "model_checking", "shards": 9, "deadline_quick": 150, "deadline_thorough": 1800,
         "engine": "E-WORLD",
         "technique": "explicit-state model checking of the implementation: BFS by replay over the life of one remote peer, with a retention suffix and an implementation-agnostic reflection scan of the whole object graph at every explored state",
         "rule": WORLD_RULE + "; at every state the leaf event 'retire' (close everything of the peer, advance 12.5 virtual minutes with heartbeats, scan) is applied",
@@ -174,9 +174,9 @@ CHECKS = {
         "design_ref": "DESIGN.md §5 C13",
     },
     "C14": {
-        "level": "fault_enumeration", "shards": 12, "deadline_quick": 110, "deadline_thorough": 1800,
+        "level": "fault_enumeration", "shards": 14, "deadline_quick": 110, "deadline_thorough": 1800,
         "engine": "E-WORLD as crash-point enumeration",
-        "technique": "exhaustive cancellation-point enumeration over the implementation: BFS by replay builds every order of concurrent API calls and gate events up to the depth bound and cancels the constructor context at every quiescent point of every order",
+        "technique": "exhaustive cancellation-point enumeration over the implementation: BFS by replay builds every order of concurrent API calls and gate events up to the depth bound and cancels the constructor context at every quiescent point of every order; after the cancellation every API call is made again and a lock scan (TryLock on every mutex of the library's object graph) runs once all calls have returned",
         "rule": "cases = (router x discovery on/off) x (every history up to the depth bound over ~24 API calls each issued from its own goroutine, remote message into a gated validator, blocked write, late stream) x cancellation at every quiescent point; "
                 "non-trivial = distinct canonical observation log (which calls were parked at the cancellation point)",
         "level_text": "at every quiescent point of every explored order the context is cancelled, the host's streams are closed and virtual time advances 75 s; every call in flight must return (own-context calls once that context is cancelled), "
@@ -210,7 +210,7 @@ CHECKS = {
         "design_ref": "DESIGN.md §5 C16",
     },
     "C17": {
-        "level": "model_checking", "shards": 8, "deadline_quick": 100, "deadline_thorough": 1500,
+        "level": "model_checking", "shards": 10, "deadline_quick": 100, "deadline_thorough": 1500,
         "engine": "E-SEQ (mcache) + E-WORLD",
         "technique": "explicit-state model checking of the implementation: BFS by replay of the real MessageCache vs. a list-of-lists reference, and around one real gossipsub node with a window/cap monitor on the wire log",
         "rule": WORLD_RULE,
@@ -222,7 +222,7 @@ CHECKS = {
         "design_ref": "DESIGN.md §5 C17",
     },
     "C18": {
-        "level": "model_checking", "shards": 2, "deadline_quick": 100, "deadline_thorough": 1200,
+        "level": "model_checking", "shards": 5, "deadline_quick": 100, "deadline_thorough": 1200,
         "engine": "E-WORLD",
         "technique": "explicit-state model checking of the implementation: BFS by replay around one real node with scripted peers",
         "rule": WORLD_RULE,
@@ -234,7 +234,7 @@ CHECKS = {
         "design_ref": "DESIGN.md §5 C18",
     },
     "C19": {
-        "level": "model_checking", "shards": 7, "deadline_quick": 110, "deadline_thorough": 1800,
+        "level": "model_checking", "shards": 9, "deadline_quick": 110, "deadline_thorough": 1800,
         "engine": "E-WORLD",
         "technique": "explicit-state model checking of the implementation: BFS by replay around one real node (all three routers) with an in-memory EventTracer whose events drive a trace replayer compared with the node at every state",
         "rule": WORLD_RULE,
